@@ -117,6 +117,11 @@ def e2e_one(chk, sseed):
             kind = type(res.exception).__name__ if res.exception is not None else "?"
             chk.violation("run-does-not-terminate:" + kind, replay,
                           f"{nrepos} repositories, nthreads {nthreads}, classes {classes}: no exit status ({kind}: {res.exception})")
+        # the release stage runs at most release_files_retries rounds (3 in the sandbox); stage sequence vs Model/Control
+        for u, r in res.obs.repos.items():
+            if len(r["rounds"]) > 3:
+                chk.violation("release-round-bound", replay, f"{u}: {len(r['rounds'])} release rounds, release_files_retries is 3")
+        common.correspondence(chk, res, replay, control=True, publish=False)
         cnt = Counter(res.net.log)
         rounds = 3  # release_files_retries of the sandbox
         for u, n in cnt.items():
